@@ -192,8 +192,22 @@ def check_reduce(full, red) -> list[tuple[str, str]]:
       (a) the reduced tree is a sub-forest of the unreduced result (same paths, by data),
       (b) every leaf of the reduced tree carries a truthy 'dc' (only marked nodes and ancestors),
       (c) every node of the unreduced result whose mark is fixed by the inputs (ADDED, REMOVED,
-          MOVED_TO, an order tuple, or MOVED_HERE directly below a matched node) is kept."""
+          MOVED_TO, an order tuple, MOVED_HERE directly below a matched node, or MOVED_HERE below an
+          added node when that data has only *one* added occurrence -- then there is no choice) is kept,
+      (d) a node present in both results carries the same mark in both whenever that mark is fixed by the
+          inputs (REMOVED vs MOVED_TO of a first-tree node does not depend on the choice: it is MOVED_TO
+          iff the second tree adds its data somewhere)."""
     out = []
+    added_occ: dict = {}  # data -> number of second-tree-only occurrences (marked, or anywhere below a marked added node)
+
+    def count_added(n, inside):
+        for c in view.kids(n):
+            here = inside or _is_enum(_dc(c), DC.ADDED, DC.MOVED_HERE)
+            if here:
+                added_occ[repr(c._data)] = added_occ.get(repr(c._data), 0) + 1
+            count_added(c, here)
+
+    count_added(full._root, False)
 
     def marked(n):
         return bool(_dc(n))
@@ -221,9 +235,12 @@ def check_reduce(full, red) -> list[tuple[str, str]]:
             m = _dc(c)
             here = f"{path}/{c._data}"
             peer = rk.get(repr(c._data))
-            fixed = bool(m) and not (_is_enum(m, DC.MOVED_HERE) and in_added)
+            fixed = bool(m) and not (_is_enum(m, DC.MOVED_HERE) and in_added and added_occ.get(repr(c._data), 0) != 1)
             if fixed and peer is None:
                 out.append((C7, f"reduce=True dropped the marked node {here} (dc = {m!r}): reduced {view.fmt(red)}, unreduced {view.fmt(full)}"))
+                return False
+            if peer is not None and _is_enum(m, DC.REMOVED, DC.MOVED_TO) and _dc(peer) != m:
+                out.append((C7, f"reduce=True marks {here} as {_dc(peer)!r}, the unreduced result as {m!r}: reduced {view.fmt(red)}, unreduced {view.fmt(full)}"))
                 return False
             if not must_keep(c, peer, here, in_added or _is_enum(m, DC.ADDED, DC.MOVED_HERE)):
                 return False
@@ -461,6 +478,35 @@ def random_pairs(count: int, max_nodes: int, base_seed: int):
     return out
 
 
+def moved_into_new_branch_pairs(max_n: int):
+    """Targeted pairs: the second tree is the first one with one branch x taken out and re-inserted at depth 1..2 *inside a
+    branch that is new* (n[x], n[m[x]], n[m[x] y], m below an existing node ...): the moved node sits below ADDED nodes."""
+    import copy
+
+    out = []
+    for sa in gen.plain_specs(max_n, min_n=1):
+        base = _to_nested(sa)
+        for li, lst in enumerate(_child_lists(base)):
+            for pos in range(len(lst)):
+                f = copy.deepcopy(base)
+                src = _child_lists(f)[li]
+                x = src.pop(pos)
+                if any(lab in ("n", "m", "y") for lab in str(f) ):
+                    pass
+                for shape in ("n[x]", "n[m[x]]", "n[m[x] y]", "n[y m[x]]"):
+                    g = copy.deepcopy(f)
+                    xx = copy.deepcopy(x)
+                    new = {"n[x]": ["n", [xx]], "n[m[x]]": ["n", [["m", [xx]]]], "n[m[x] y]": ["n", [["m", [xx]], ["y", []]]], "n[y m[x]]": ["n", [["y", []], ["m", [xx]]]]}[shape]
+                    g.append(new)  # a new top-level branch
+                    out.append((sa, _from_nested(g)))
+                    # ... and the same new branch below the first surviving top-level node
+                    if g[:-1]:
+                        g2 = copy.deepcopy(f)
+                        g2[0][1].append(copy.deepcopy(new))
+                        out.append((sa, _from_nested(g2)))
+    return out
+
+
 # ------------------------------------------------------------------ entry points
 def run(prop: str, tier: str, only=None) -> Result:
     total = Result(prop)
@@ -501,6 +547,9 @@ def run(prop: str, tier: str, only=None) -> Result:
         )
         total.bounds["Tree.diff (sampled 5-node pairs)"] = f"{len(samp)} sampled ordered pairs with one 5-node forest and one forest <= 5 nodes over {{a,b,c}} (VERIF_SEED={seed()})"
         n_rand, n_max = 40000, 7
+    tp = moved_into_new_branch_pairs(3 if tier == "quick" else 4)
+    total.merge(parallel(_explicit_pairs_chunk, tp, prop, prop=prop))
+    total.bounds["Tree.diff (moves into new branches)"] = f"{len(tp)} pairs: every forest <= {3 if tier == 'quick' else 4} nodes over {{a,b,c}} with each branch taken out and re-inserted at depth 1..2 inside a new branch (n[x], n[m[x]], n[m[x] y], n[y m[x]]) at top level and below the first top-level node"
     pairs = random_pairs(n_rand, n_max, base)
     r = parallel(_explicit_pairs_chunk, pairs, prop, prop=prop)
     r.exhaustive = False
